@@ -67,6 +67,7 @@ func (m *notifyMempool) FinishStreaming(ctx context.Context, restorable []*chain
 
 type live struct {
 	rules   *genesis.Rules
+	rf      chain.RuleFactory // what builder and verifier are given; a static factory over rules unless a test replaces it
 	index   *chainIndex
 	db      merkledb.MerkleDB
 	genesis *chain.OutputBlock
@@ -89,8 +90,10 @@ func newLive(rs RulesSpec, parent []KV, balances []*uint64, ago int64, parentFee
 		return nil, err
 	}
 	g := chain.NewExecutionBlock(sb)
+	rules := rs.Rules()
 	l := &live{
-		rules: rs.Rules(), index: &chainIndex{blks: map[ids.ID]*chain.ExecutionBlock{}}, db: db, parent0: st,
+		rules: rules, rf: fixture.RuleFactory{R: rules},
+		index: &chainIndex{blks: map[ids.ID]*chain.ExecutionBlock{}}, db: db, parent0: st,
 		genesis: &chain.OutputBlock{ExecutionBlock: g, View: db, ExecutionResults: &chain.ExecutionResults{}},
 		mp:      &notifyMempool{Mempool: mempool.New[*chain.Transaction](trace.Noop, 1<<20, 1<<20), finished: make(chan int, 4)},
 	}
@@ -117,7 +120,7 @@ func (l *live) builderWith(vw chain.ValidityWindow, cores int, targetTxsSize int
 	cfg.TransactionExecutionCores = cores
 	cfg.TargetBuildDuration = 5 * time.Second
 	cfg.TargetTxsSize = targetTxsSize
-	return chain.NewBuilder(trace.Noop, fixture.RuleFactory{R: l.rules}, log, fixture.Metadata(), fixture.BalanceHandler(), l.mp, vw, fixture.Metrics(), cfg)
+	return chain.NewBuilder(trace.Noop, l.rf, log, fixture.Metadata(), fixture.BalanceHandler(), l.mp, vw, fixture.Metrics(), cfg)
 }
 
 func (l *live) builder(vw chain.ValidityWindow, cores int, targetTxsSize int) *chain.Builder {
@@ -125,7 +128,7 @@ func (l *live) builder(vw chain.ValidityWindow, cores int, targetTxsSize int) *c
 	cfg.TransactionExecutionCores = cores
 	cfg.TargetBuildDuration = 5 * time.Second
 	cfg.TargetTxsSize = targetTxsSize
-	return chain.NewBuilder(trace.Noop, fixture.RuleFactory{R: l.rules}, logging.NoLog{}, fixture.Metadata(), fixture.BalanceHandler(), l.mp, vw, fixture.Metrics(), cfg)
+	return chain.NewBuilder(trace.Noop, l.rf, logging.NoLog{}, fixture.Metadata(), fixture.BalanceHandler(), l.mp, vw, fixture.Metrics(), cfg)
 }
 
 // waitFinish waits for the builder's asynchronous FinishStreaming.
@@ -159,7 +162,7 @@ func u64(b []byte) uint64 {
 // verifyBuilt re-executes a built block on its parent with a fresh processor
 // and compares everything the builder claimed.
 func (l *live) verifyBuilt(ctx context.Context, vw chain.ValidityWindow, parent *chain.OutputBlock, blk *chain.ExecutionBlock, built *chain.OutputBlock, cfg fixture.ExecConfig, viaBytes bool) error {
-	p, w := fixture.NewProcessor(l.rules, vw, cfg, fixture.NoEngines{})
+	p, w := fixture.NewProcessorRF(l.rf, vw, cfg, fixture.NoEngines{})
 	defer w.Stop()
 	target := blk
 	if viaBytes {
